@@ -256,4 +256,20 @@ CHECKS = {
         thorough=[R("^TestFixed$", 1, 1, 900), R("^TestRuns$", 200, 15, 3400, shrinktime="180s")],
         floors={"run-ended-by-error-or-teardown": ("TestRuns", 0.3)},
     ),
+    "C13": dict(
+        pkg="./props/c13", bins=["./cmd/simcore"], level="exploration",
+        rule=("whole core against the simulated world; rapid-generated workflows of 2-6 direct/FairMQ tasks on 1-3 hosts with 0-3 inbound channels each "
+              "(declared in the task template or at role level, role level optionally overriding a template declaration; tcp or ipc addressing; "
+              "transports default/zeromq/shmem; optional global alias) and 0-3 outbound channels (declared in the template, at the task role or "
+              "on the enclosing aggregator) whose target is <role path>:<channel>, ::alias, an explicit tcp:// / ipc:// address, or matches "
+              "nothing; optionally two tasks claiming one alias. Oracle from the CONFIGURE arguments each simulated executor receives and the "
+              "ports in the launched TaskInfo: inbound = method bind on tcp://*:<port launched for this task> or an ipc path, declared transport; "
+              "named outbound = tcp://<host of the binding task>:<that task's own bound port> (or its ipc path) with the inbound side's transport; "
+              "explicit targets byte for byte; unmatched target or conflicting alias => creation fails. Non-trivial: a cross-host connection, "
+              "an alias, or a role-level override."),
+        assumptions=["channel arguments are read from the CONFIGURE command as the executor would receive it"],
+        quick=[R("^TestFixed$", 1, 1, 600), R("^TestChannels$", 25, 8, 900, shrinktime="90s")],
+        thorough=[R("^TestFixed$", 1, 1, 600), R("^TestChannels$", 300, 15, 3400, shrinktime="180s")],
+        floors={"cross-host": ("TestChannels", 0.3), "alias": ("TestChannels", 0.3)},
+    ),
 }
